@@ -10,7 +10,7 @@
      window    `x<input> (r<n> | d<end>)* (e<off> | u)`   -> `m|s <line> <col> x<excerpt>` | `panic`
      seekable  `x<input> (e<off> | u)`                    -> `m|s <line> <col> x<excerpt>`
      qerr      `x<query> <isArg 0|1> (<Offset> <|Token|> | none)` -> `m|s <line> <col> x<excerpt>`
-     yaml      `x<text> <index>`                          -> `m <line> <col> x<excerpt>` -/
+     yaml      `x<text> <character index, -1 = none>`     -> `m <line> <col> x<excerpt>` | `noindex` -/
 import Gojq.Model.Cli.Window
 import Gojq.Model.Wire
 import Driver.Common
@@ -127,7 +127,9 @@ def yamlLine (line : String) : String :=
   match tokens line with
   | [t, i] =>
     match unx t, i.toInt? with
-    | some s, some i => showReport (yamlReport w17 s i)
+    | some s, some i => match yamlReport w17 s i with
+      | some r => showReport r
+      | none => "noindex"
     | _, _ => "?parse"
   | _ => "?parse"
 
